@@ -214,9 +214,14 @@ def compute_combined_features(
         full_combination_space = full_combination_space + [tuple for tuple in model_combinations if tuple not in full_combination_space]
 
     def combine_features(new_combination):
-        combined_feature = input_dataframe[new_combination[0]].astype(str)
+        # Length-prefix each constituent value so that different value tuples never concatenate to the same string
+        def tagged_values(feature):
+            values = input_dataframe[feature].astype(str)
+            return values.str.len().astype(str) + ':' + values
+
+        combined_feature = tagged_values(new_combination[0])
         for feature in new_combination[1:]:
-            combined_feature += input_dataframe[feature].astype(str)
+            combined_feature += tagged_values(feature)
         combined_feature = combined_feature.apply(lambda x: xxhash.xxh64(x.encode('utf-8')).hexdigest())
         ftr_name = join_string.join(new_combination)
         return ftr_name, combined_feature
